@@ -28,7 +28,7 @@ use grin_core::ser::{
 	SerializationMode, Writeable, Writer,
 };
 use grin_p2p::msg::{
-	BanReason, GetPeerAddrs, Hand, Headers, Locator, Message, MsgHeader, MsgHeaderWrapper,
+	BanReason, GetPeerAddrs, Hand, Headers, Locator, Message, MsgHeaderWrapper,
 	OutputBitmapSegmentResponse, OutputSegmentResponse, PeerAddrs, PeerError, Ping, Pong,
 	SegmentRequest, SegmentResponse, Shake, TxHashSetArchive, TxHashSetRequest, Type,
 };
@@ -151,6 +151,20 @@ const DECODERS: [&str; NDEC] = [
 	"MerkleProof::from_hex(str)",
 	"Codec::read",
 ];
+
+/// Decoder name used in violation signatures (the two from_hex drivers are one entry point).
+fn sig_dec(dec: usize) -> &'static str {
+	match dec {
+		D_MERKLE_HEXBIN | D_MERKLE_HEXSTR => "MerkleProof::from_hex",
+		d => DECODERS[d],
+	}
+}
+
+fn ascii(s: &str) -> String {
+	s.chars()
+		.map(|c| if c.is_ascii() && !c.is_ascii_control() { c } else { '?' })
+		.collect()
+}
 
 /// Fixture kind used by the segment post-decode checks of a decoder.
 const FX_OUT: u8 = 0;
@@ -423,7 +437,7 @@ impl Corpus {
 			let kind = c.u8();
 			let n_leaves = c.u64();
 			let size = c.u64();
-			let mut h = |c: &mut Cur| {
+			let h = |c: &mut Cur| {
 				let x = Hash::from_vec(&c.b[c.p..c.p + 32]);
 				c.p += 32;
 				x
@@ -1371,5 +1385,2252 @@ impl<'a, W: Writeable> Framed<'a, W> {
 			ty: self.ty,
 			len,
 		}
+	}
+}
+
+// ------------------------------------------------------------------ case space
+
+#[derive(Clone, Copy, PartialEq, Eq, Debug)]
+enum Class {
+	Honest = 0,
+	Field = 1,
+	Tag = 2,
+	Trunc = 3,
+	Splice = 4,
+	Bitflip = 5,
+	Havoc = 6,
+	Random = 7,
+	Fill = 8,
+}
+const CLASS_NAMES: [&str; 9] = [
+	"honest", "field", "tag", "trunc", "splice", "bitflip", "havoc", "random", "fill",
+];
+
+struct Group {
+	seed: u32,
+	dec: u16,
+	ver: u32,
+	net: u8,
+	class: Class,
+	start: u64,
+	count: u64,
+	/// Field/Tag: (field index, number of values); Trunc: (offset, 1)
+	items: Vec<(u32, u32)>,
+}
+
+struct Space {
+	groups: Vec<Group>,
+	total: u64,
+}
+
+struct Budget {
+	splice: u64,
+	bitflip: u64,
+	havoc: u64,
+	random: u64,
+}
+
+fn budget(tier: Tier) -> Budget {
+	match tier {
+		Tier::Quick => Budget {
+			splice: 48,
+			bitflip: 64,
+			havoc: 96,
+			random: 384,
+		},
+		Tier::Thorough => Budget {
+			splice: 200,
+			bitflip: 300,
+			havoc: 400,
+			random: 1500,
+		},
+	}
+}
+
+const FILL_VALS: [u8; 4] = [0x00, 0xff, 0x01, 0x80];
+const FILL_LENS: [usize; 49] = [
+	0, 1, 2, 3, 4, 5, 6, 7, 8, 9, 10, 11, 12, 13, 14, 15, 16, 17, 18, 19, 20, 21, 22, 23, 24, 25, 26,
+	27, 28, 29, 30, 31, 32, 33, 40, 48, 64, 65, 100, 128, 255, 256, 257, 512, 1024, 2048, 4095,
+	4096, 3000,
+];
+
+const MAGIC_VALUES: [u64; 16] = [
+	255, 256, 675, 676, 1023, 1024, 1025, 65535, 65537, 100_000, 100_001, 1_000_000, 1_000_001,
+	40_000, 250, 21,
+];
+
+fn width_max(width: u8) -> u64 {
+	if width >= 8 {
+		u64::MAX
+	} else {
+		(1u64 << (8 * width as u32)) - 1
+	}
+}
+
+/// Values an integer field of `width` bytes (current value `actual`) is set to.
+fn field_values(width: u8, actual: u64) -> Vec<u64> {
+	let bits = 8 * width as u32;
+	let max = width_max(width);
+	let mut v: Vec<u64> = vec![
+		0,
+		1,
+		actual.wrapping_sub(1) & max,
+		actual.wrapping_add(1) & max,
+		max,
+		max - 1,
+	];
+	for k in 1..bits {
+		v.push(1u64 << k);
+	}
+	for k in 2..bits {
+		v.push((1u64 << k) - 1);
+	}
+	for k in [8u32, 16, 32, 59, 63] {
+		if k < bits {
+			v.push((1u64 << k) + 1);
+		}
+	}
+	for m in MAGIC_VALUES.iter() {
+		if *m <= max {
+			v.push(*m);
+		}
+	}
+	let mut seen = HashSet::new();
+	v.retain(|x| *x != actual && seen.insert(*x));
+	v
+}
+
+fn read_be(bytes: &[u8], off: usize, width: usize) -> u64 {
+	let mut x = 0u64;
+	for i in 0..width {
+		x = (x << 8) | *bytes.get(off + i).unwrap_or(&0) as u64;
+	}
+	x
+}
+
+fn write_be(bytes: &mut [u8], off: usize, width: usize, v: u64) {
+	for i in 0..width {
+		if off + i < bytes.len() {
+			bytes[off + i] = (v >> (8 * (width - 1 - i))) as u8;
+		}
+	}
+}
+
+fn pick_spread(idx: Vec<usize>, max: usize) -> Vec<usize> {
+	if idx.len() <= max {
+		return idx;
+	}
+	let head = max / 2;
+	let tail = max / 5;
+	let mid = max - head - tail;
+	let mut out: Vec<usize> = idx[..head].to_vec();
+	let m = &idx[head..idx.len() - tail];
+	for i in 0..mid {
+		out.push(m[i * m.len() / mid]);
+	}
+	out.extend_from_slice(&idx[idx.len() - tail..]);
+	out
+}
+
+/// (max integer fields, max tag bytes, max truncation offsets) enumerated per seed
+fn caps(dec: usize) -> (usize, usize, usize) {
+	if dec == D_CODEC {
+		(12, 5, 96)
+	} else {
+		(64, 16, 1024)
+	}
+}
+
+fn build_space(corpus: &Corpus, tier: Tier) -> Space {
+	let bud = budget(tier);
+	let mut groups: Vec<Group> = vec![];
+	let mut start = 0u64;
+	let mut push = |groups: &mut Vec<Group>,
+	                seed: u32,
+	                dec: u16,
+	                ver: u32,
+	                net: u8,
+	                class: Class,
+	                count: u64,
+	                items: Vec<(u32, u32)>| {
+		if count == 0 {
+			return;
+		}
+		groups.push(Group {
+			seed,
+			dec,
+			ver,
+			net,
+			class,
+			start,
+			count,
+			items,
+		});
+		start += count;
+	};
+	for (si, s) in corpus.seeds.iter().enumerate() {
+		let si = si as u32;
+		let (max_int, max_tag, max_trunc) = caps(s.dec as usize);
+		push(&mut groups, si, s.dec, s.ver, s.net, Class::Honest, 1, vec![]);
+		if s.enumerate {
+			let ints: Vec<usize> = (0..s.fields.len())
+				.filter(|i| s.fields[*i].kind >= 2)
+				.collect();
+			let items: Vec<(u32, u32)> = pick_spread(ints, max_int)
+				.into_iter()
+				.map(|i| {
+					let f = s.fields[i];
+					let actual = read_be(&s.bytes, f.off as usize, f.kind as usize);
+					(i as u32, field_values(f.kind, actual).len() as u32)
+				})
+				.collect();
+			let count = items.iter().map(|x| x.1 as u64).sum();
+			push(&mut groups, si, s.dec, s.ver, s.net, Class::Field, count, items);
+
+			let tags: Vec<usize> = (0..s.fields.len())
+				.filter(|i| s.fields[*i].kind == 1 || (s.fields[*i].kind == 0 && s.fields[*i].len == 1))
+				.collect();
+			let items: Vec<(u32, u32)> = pick_spread(tags, max_tag)
+				.into_iter()
+				.map(|i| (i as u32, 256))
+				.collect();
+			let count = items.iter().map(|x| x.1 as u64).sum();
+			push(&mut groups, si, s.dec, s.ver, s.net, Class::Tag, count, items);
+
+			let offs: Vec<usize> = (0..s.bytes.len()).collect();
+			let items: Vec<(u32, u32)> = pick_spread(offs, max_trunc)
+				.into_iter()
+				.map(|o| (o as u32, 1))
+				.collect();
+			let count = items.len() as u64;
+			push(&mut groups, si, s.dec, s.ver, s.net, Class::Trunc, count, items);
+		}
+		push(&mut groups, si, s.dec, s.ver, s.net, Class::Splice, bud.splice, vec![]);
+		push(&mut groups, si, s.dec, s.ver, s.net, Class::Bitflip, bud.bitflip, vec![]);
+		push(&mut groups, si, s.dec, s.ver, s.net, Class::Havoc, bud.havoc, vec![]);
+	}
+	for dec in 0..NDEC {
+		for ver in VERSIONS.iter() {
+			let nets: &[u8] = if both_nets(dec) { &[0, 1] } else { &[0] };
+			for net in nets {
+				push(
+					&mut groups,
+					u32::MAX,
+					dec as u16,
+					*ver,
+					*net,
+					Class::Random,
+					bud.random,
+					vec![],
+				);
+				push(
+					&mut groups,
+					u32::MAX,
+					dec as u16,
+					*ver,
+					*net,
+					Class::Fill,
+					(FILL_VALS.len() * FILL_LENS.len()) as u64,
+					vec![],
+				);
+			}
+		}
+	}
+	Space {
+		groups,
+		total: start,
+	}
+}
+
+struct Case {
+	id: u64,
+	dec: usize,
+	ver: u32,
+	net: u8,
+	class: Class,
+	seed: u32,
+	aux: u32,
+	bytes: Vec<u8>,
+	desc: String,
+}
+
+fn case_prng(run_seed: u64, id: u64) -> Prng {
+	let mut x = id ^ 0xC11C_A5E0;
+	let h = splitmix64(&mut x);
+	Prng::new(run_seed.wrapping_mul(0x2545_F491_4F6C_DD1D) ^ h)
+}
+
+fn field_at<'a>(s: &'a Seed, p: &mut Prng) -> Option<&'a Field> {
+	if s.fields.is_empty() {
+		None
+	} else {
+		Some(&s.fields[p.usize_below(s.fields.len())])
+	}
+}
+
+/// Replace / insert / overwrite a run of fields of `s` with a run of fields of another seed.
+fn op_splice(bytes: &mut Vec<u8>, s: &Seed, corpus: &Corpus, p: &mut Prng) -> String {
+	let donor = &corpus.seeds[p.usize_below(corpus.seeds.len())];
+	if donor.fields.is_empty() || donor.bytes.is_empty() {
+		return "splice(noop)".into();
+	}
+	let i = p.usize_below(donor.fields.len());
+	let j = (i + 1 + p.usize_below(3)).min(donor.fields.len());
+	let a = donor.fields[i].off as usize;
+	let e = (donor.fields[j - 1].off + donor.fields[j - 1].len) as usize;
+	let chunk = &donor.bytes[a..e.min(a + 2048).min(donor.bytes.len())];
+	let (toff, tlen) = match field_at(s, p) {
+		Some(f) => (f.off as usize, f.len as usize),
+		None => (p.usize_below(bytes.len() + 1), 0),
+	};
+	let toff = toff.min(bytes.len());
+	let mode = p.below(3);
+	match mode {
+		0 => {
+			let end = (toff + tlen).min(bytes.len());
+			bytes.splice(toff..end, chunk.iter().cloned());
+		}
+		1 => {
+			bytes.splice(toff..toff, chunk.iter().cloned());
+		}
+		_ => {
+			for (k, c) in chunk.iter().enumerate() {
+				if toff + k < bytes.len() {
+					bytes[toff + k] = *c;
+				}
+			}
+		}
+	}
+	format!(
+		"splice(mode={} at={} donor={}/{}@v{} fields {}..{} len={})",
+		mode,
+		toff,
+		DECODERS[donor.dec as usize],
+		donor.label,
+		donor.ver,
+		i,
+		j,
+		chunk.len()
+	)
+}
+
+fn op_bitflip(bytes: &mut Vec<u8>, s: &Seed, p: &mut Prng) -> String {
+	if bytes.is_empty() {
+		return "bitflip(noop)".into();
+	}
+	let pos = if p.bool() {
+		// inside an integer field if there is one
+		let ints: Vec<&Field> = s.fields.iter().filter(|f| f.kind >= 1).collect();
+		if ints.is_empty() {
+			p.usize_below(bytes.len())
+		} else {
+			let f = ints[p.usize_below(ints.len())];
+			(f.off as usize + p.usize_below(f.len.max(1) as usize)).min(bytes.len() - 1)
+		}
+	} else {
+		p.usize_below(bytes.len())
+	};
+	let bit = p.below(8);
+	bytes[pos] ^= 1 << bit;
+	format!("flip({}.{})", pos, bit)
+}
+
+fn op_havoc(bytes: &mut Vec<u8>, s: &Seed, corpus: &Corpus, p: &mut Prng) -> String {
+	match p.below(9) {
+		0 => op_bitflip(bytes, s, p),
+		1 => {
+			let ints: Vec<&Field> = s.fields.iter().filter(|f| f.kind >= 2).collect();
+			if ints.is_empty() {
+				return op_bitflip(bytes, s, p);
+			}
+			let f = ints[p.usize_below(ints.len())];
+			let v = p.interesting_u64() & width_max(f.kind);
+			write_be(bytes, f.off as usize, f.kind as usize, v);
+			format!("int@{}={}", f.off, v)
+		}
+		2 => {
+			if bytes.is_empty() {
+				return "del(noop)".into();
+			}
+			let a = p.usize_below(bytes.len());
+			let n = (1 + p.usize_below(64)).min(bytes.len() - a);
+			bytes.drain(a..a + n);
+			format!("del({}+{})", a, n)
+		}
+		3 => {
+			if bytes.is_empty() {
+				return "dup(noop)".into();
+			}
+			let (a, n) = match field_at(s, p) {
+				Some(f) => (f.off as usize, f.len as usize),
+				None => (p.usize_below(bytes.len()), 8),
+			};
+			let a = a.min(bytes.len());
+			let e = (a + n).min(bytes.len());
+			let chunk: Vec<u8> = bytes[a..e].to_vec();
+			bytes.splice(e..e, chunk.into_iter());
+			format!("dup({}+{})", a, e - a)
+		}
+		4 => {
+			let a = p.usize_below(bytes.len() + 1);
+			let n = 1 + p.usize_below(32);
+			let r = p.bytes(n);
+			bytes.splice(a..a, r.into_iter());
+			format!("ins({}+{})", a, n)
+		}
+		5 => {
+			let a = p.usize_below(bytes.len() + 1);
+			bytes.truncate(a);
+			format!("trunc({})", a)
+		}
+		6 => op_splice(bytes, s, corpus, p),
+		7 => {
+			if bytes.is_empty() {
+				return "set(noop)".into();
+			}
+			let a = p.usize_below(bytes.len());
+			let n = (1 + p.usize_below(16)).min(bytes.len() - a);
+			let v = if p.bool() { 0xff } else { 0x00 };
+			for b in bytes[a..a + n].iter_mut() {
+				*b = v;
+			}
+			format!("set({}+{}={:#x})", a, n, v)
+		}
+		_ => {
+			if s.fields.len() < 2 {
+				return op_bitflip(bytes, s, p);
+			}
+			let f1 = s.fields[p.usize_below(s.fields.len())];
+			let f2 = s.fields[p.usize_below(s.fields.len())];
+			let n = f1.len.min(f2.len) as usize;
+			for k in 0..n {
+				let (a, b) = (f1.off as usize + k, f2.off as usize + k);
+				if a < bytes.len() && b < bytes.len() {
+					bytes.swap(a, b);
+				}
+			}
+			format!("swap({},{}x{})", f1.off, f2.off, n)
+		}
+	}
+}
+
+/// Give seedless bytes a valid frame prefix so that they get past the magic check.
+fn frame_fix(bytes: &mut Vec<u8>, dec: usize, net: u8, p: &mut Prng) {
+	let m = magic_for(net);
+	if bytes.len() >= 2 {
+		bytes[0] = m[0];
+		bytes[1] = m[1];
+	}
+	if bytes.len() >= 3 {
+		bytes[2] = match dec {
+			D_HANDMSG => {
+				if p.below(8) == 0 {
+					p.below(32) as u8
+				} else {
+					1
+				}
+			}
+			D_SHAKEMSG => {
+				if p.below(8) == 0 {
+					p.below(32) as u8
+				} else {
+					2
+				}
+			}
+			_ => {
+				if p.below(4) == 0 {
+					bytes[2]
+				} else {
+					p.below(30) as u8
+				}
+			}
+		};
+	}
+	if bytes.len() >= 11 {
+		let rest = (bytes.len() - 11) as u64;
+		let l = match p.below(4) {
+			0 => rest,
+			1 => p.below(2 * rest + 2),
+			2 => p.below(1 << 16),
+			_ => read_be(bytes, 3, 8),
+		};
+		write_be(bytes, 3, 8, l);
+	}
+}
+
+fn default_fixture(corpus: &Corpus, dec: usize, pick: u64) -> u32 {
+	match fx_kind(dec) {
+		None => u32::MAX,
+		Some(k) => {
+			let c: Vec<usize> = (0..corpus.fixtures.len())
+				.filter(|i| corpus.fixtures[*i].kind == k)
+				.collect();
+			if c.is_empty() {
+				u32::MAX
+			} else {
+				c[(pick % c.len() as u64) as usize] as u32
+			}
+		}
+	}
+}
+
+fn make_case(corpus: &Corpus, space: &Space, run_seed: u64, id: u64) -> Case {
+	let gi = match space.groups.binary_search_by(|g| {
+		if id < g.start {
+			std::cmp::Ordering::Greater
+		} else if id >= g.start + g.count {
+			std::cmp::Ordering::Less
+		} else {
+			std::cmp::Ordering::Equal
+		}
+	}) {
+		Ok(i) => i,
+		Err(_) => panic!("case id {} outside the case space", id),
+	};
+	let g = &space.groups[gi];
+	let p = id - g.start;
+	let mut prng = case_prng(run_seed, id);
+	let dec = g.dec as usize;
+	let mut c = Case {
+		id,
+		dec,
+		ver: g.ver,
+		net: g.net,
+		class: g.class,
+		seed: g.seed,
+		aux: u32::MAX,
+		bytes: vec![],
+		desc: String::new(),
+	};
+	if g.seed != u32::MAX {
+		let s = &corpus.seeds[g.seed as usize];
+		c.aux = s.aux;
+		c.bytes = s.bytes.clone();
+		let head = format!("seed[{}]", s.label);
+		let d = match g.class {
+			Class::Honest => "honest".to_string(),
+			Class::Field | Class::Tag => {
+				let mut k = p;
+				let mut out = String::new();
+				for (fi, n) in g.items.iter() {
+					if k < *n as u64 {
+						let f = s.fields[*fi as usize];
+						if g.class == Class::Tag {
+							c.bytes[f.off as usize] = k as u8;
+							out = format!("byte@{}: {:#04x} -> {:#04x}", f.off, s.bytes[f.off as usize], k);
+						} else {
+							let actual = read_be(&s.bytes, f.off as usize, f.kind as usize);
+							let v = field_values(f.kind, actual)[k as usize];
+							write_be(&mut c.bytes, f.off as usize, f.kind as usize, v);
+							out = format!("u{}@{}: {} -> {}", 8 * f.kind as u32, f.off, actual, v);
+						}
+						break;
+					}
+					k -= *n as u64;
+				}
+				out
+			}
+			Class::Trunc => {
+				let off = g.items[p as usize].0 as usize;
+				c.bytes.truncate(off);
+				format!("truncated to {} of {}", off, s.bytes.len())
+			}
+			Class::Splice => op_splice(&mut c.bytes, s, corpus, &mut prng),
+			Class::Bitflip => {
+				let n = 1 + prng.below(4);
+				let mut v = vec![];
+				for _ in 0..n {
+					v.push(op_bitflip(&mut c.bytes, s, &mut prng));
+				}
+				v.join(",")
+			}
+			Class::Havoc => {
+				let n = 2 + prng.below(5);
+				let mut v = vec![];
+				for _ in 0..n {
+					v.push(op_havoc(&mut c.bytes, s, corpus, &mut prng));
+				}
+				v.join(",")
+			}
+			_ => unreachable!(),
+		};
+		c.desc = format!("{} {}", head, d);
+	} else {
+		c.aux = default_fixture(corpus, dec, p);
+		match g.class {
+			Class::Random => {
+				let len = if p < 48 {
+					p as usize
+				} else {
+					prng.usize_below(4097)
+				};
+				let style = prng.below(4);
+				let mut b = prng.bytes(len);
+				match style {
+					0 | 1 => {}
+					2 => {
+						// small values: counts and tags tend to be plausible
+						for x in b.iter_mut() {
+							*x = match *x % 8 {
+								0 => 1,
+								1 => 2,
+								2 => 0xff,
+								3 => *x % 16,
+								_ => 0,
+							};
+						}
+					}
+					_ => {
+						// mostly zero with a few random bytes
+						let keep = prng.below(8) + 1;
+						let r = b.clone();
+						for x in b.iter_mut() {
+							*x = 0;
+						}
+						for _ in 0..keep {
+							if !b.is_empty() {
+								let i = prng.usize_below(b.len());
+								b[i] = r[i];
+							}
+						}
+					}
+				}
+				c.bytes = b;
+				if is_framed(dec) && p % 4 != 0 {
+					frame_fix(&mut c.bytes, dec, g.net, &mut prng);
+				}
+				if dec == D_MERKLE_HEXSTR && p % 2 == 1 {
+					// printable hex-ish text
+					const CH: &[u8] = b"0123456789abcdefABCDEFgxz -";
+					for x in c.bytes.iter_mut() {
+						*x = CH[(*x as usize) % CH.len()];
+					}
+				}
+				c.desc = format!("random len={} style={}", len, style);
+			}
+			Class::Fill => {
+				let val = FILL_VALS[(p as usize) / FILL_LENS.len()];
+				let len = FILL_LENS[(p as usize) % FILL_LENS.len()];
+				c.bytes = vec![val; len];
+				if is_framed(dec) && val != 0x00 {
+					frame_fix(&mut c.bytes, dec, g.net, &mut prng);
+				}
+				if dec == D_MERKLE_HEXSTR {
+					let ch = [b'0', b'f', b'z', b'F'][(p as usize) / FILL_LENS.len()];
+					c.bytes = vec![ch; len];
+				}
+				c.desc = format!("fill {:#04x} x {}", val, len);
+			}
+			_ => unreachable!(),
+		}
+	}
+	c
+}
+
+// ------------------------------------------------------------------ monitors
+
+struct Finding {
+	sig: String,
+	event: &'static str,
+	stage: &'static str,
+	msg: String,
+	loc: String,
+	max_single: u64,
+	peak: u64,
+}
+
+struct StageResult {
+	stage: &'static str,
+	decode: bool,
+	/// "ok", "err:<kind>", "viol:<event>"
+	outcome: String,
+}
+
+struct Mon {
+	id: u64,
+	dec: usize,
+	len: u64,
+	code_decode: u64,
+	code_post: u64,
+	results: Vec<StageResult>,
+	findings: Vec<Finding>,
+	harness_errors: Vec<String>,
+	max_single: u64,
+	max_peak: u64,
+	prng: Prng,
+}
+
+fn norm_loc(loc: &str) -> (String, bool) {
+	// returns (normalised location, inside the code under test)
+	if let Some(i) = loc.find("/repo/") {
+		return (loc[i + 6..].to_string(), true);
+	}
+	if let Some(i) = loc.find("/library/") {
+		return (format!("std:{}", &loc[i + 1..]), false);
+	}
+	if let Some(i) = loc.find("/registry/src/") {
+		let rest = &loc[i + 14..];
+		let rest = rest.splitn(2, '/').nth(1).unwrap_or(rest);
+		return (format!("dep:{}", rest), false);
+	}
+	(loc.to_string(), false)
+}
+
+fn ek<E: std::fmt::Debug>(e: E) -> String {
+	let s = format!("{:?}", e);
+	let mut end = s.len();
+	for (i, ch) in s.char_indices() {
+		if ch == '"' || ch == '{' || ch == '[' || i >= 48 {
+			end = i;
+			break;
+		}
+	}
+	ascii(s[..end].trim_end_matches(|c: char| c == '(' || c == ' ' || c == ','))
+}
+
+fn stage_key(id: u64, code: u64) -> u64 {
+	(id << 8) | code.min(255)
+}
+
+impl Mon {
+	fn new(id: u64, dec: usize, len: u64, prng: Prng) -> Mon {
+		Mon {
+			id,
+			dec,
+			len,
+			code_decode: 0,
+			code_post: 16,
+			results: vec![],
+			findings: vec![],
+			harness_errors: vec![],
+			max_single: 0,
+			max_peak: 0,
+			prng,
+		}
+	}
+
+	/// Run one monitored stage: watchdog + allocation tracking + panic capture.
+	fn stage<T>(
+		&mut self,
+		name: &'static str,
+		decode: bool,
+		f: impl FnOnce() -> Result<T, String>,
+	) -> Option<T> {
+		let code = if decode {
+			let c = self.code_decode.min(15);
+			self.code_decode += 1;
+			c
+		} else {
+			let c = self.code_post.min(255);
+			self.code_post += 1;
+			c
+		};
+		let key = stage_key(self.id, code);
+		watchdog_enter(key);
+		let (res, st) = track_alloc(key, || catch(f));
+		watchdog_leave();
+		let coarse = if decode { "decode" } else { "post" };
+		self.max_single = self.max_single.max(st.max_single as u64);
+		self.max_peak = self.max_peak.max(st.peak_live as u64);
+		let mut outcome = String::new();
+		let mut value = None;
+		match res {
+			Err(pr) => {
+				let (loc, in_repo) = norm_loc(&pr.location);
+				if pr.location.contains("c11.rs") || pr.location.contains("vcommon") {
+					self.harness_errors
+						.push(format!("harness panic in stage {}: {} @ {}", name, ascii(&pr.message), loc));
+					outcome = "err:harness-panic".into();
+				} else {
+					let sig = if in_repo {
+						format!("event=panic@{}", loc)
+					} else {
+						format!(
+							"event=panic@{};decoder={};stage={}",
+							loc, sig_dec(self.dec), coarse
+						)
+					};
+					self.findings.push(Finding {
+						sig,
+						event: "panic",
+						stage: name,
+						msg: ascii(&pr.message).chars().take(200).collect(),
+						loc,
+						max_single: st.max_single as u64,
+						peak: st.peak_live as u64,
+					});
+					outcome = "viol:panic".into();
+				}
+			}
+			Ok(r) => {
+				match r {
+					Ok(v) => {
+						outcome = "ok".into();
+						value = Some(v);
+					}
+					Err(k) => {
+						outcome = format!("err:{}", k);
+					}
+				}
+			}
+		}
+		if st.max_single as u64 > single_budget(self.len) || st.peak_live as u64 > peak_budget(self.len)
+		{
+			self.findings.push(Finding {
+				sig: format!("event=over-alloc;decoder={};stage={}", sig_dec(self.dec), coarse),
+				event: "over-alloc",
+				stage: name,
+				msg: format!(
+					"max single request {} (budget {}), peak live {} (budget {}) for input budget length {}",
+					st.max_single,
+					single_budget(self.len),
+					st.peak_live,
+					peak_budget(self.len),
+					self.len
+				),
+				loc: String::new(),
+				max_single: st.max_single as u64,
+				peak: st.peak_live as u64,
+			});
+			if !outcome.starts_with("viol") {
+				outcome = "viol:over-alloc".into();
+			}
+		}
+		self.results.push(StageResult {
+			stage: name,
+			decode,
+			outcome,
+		});
+		value
+	}
+}
+
+// ------------------------------------------------------------------ decoders and post-decode checks
+
+fn dec_buf<T: Readable>(b: &[u8], v: u32) -> Result<T, String> {
+	let mut s: &[u8] = b;
+	let mut r = BufReader::new(&mut s, ProtocolVersion(v));
+	r.body::<T>().map_err(ek)
+}
+
+fn dec_bin<T: Readable>(b: &[u8], v: u32) -> Result<T, String> {
+	let mut s: &[u8] = b;
+	ser::deserialize::<T, _>(&mut s, ProtocolVersion(v), DeserializationMode::default()).map_err(ek)
+}
+
+macro_rules! both {
+	($m:expr, $t:ty, $b:expr, $v:expr, $post:expr) => {{
+		if let Some(x) = $m.stage("decode/BufReader", true, || dec_buf::<$t>($b, $v)) {
+			$post(&mut *$m, x);
+		}
+		if let Some(x) = $m.stage("decode/BinReader", true, || dec_bin::<$t>($b, $v)) {
+			$post(&mut *$m, x);
+		}
+	}};
+}
+
+struct WCtx {
+	corpus: Corpus,
+	space: Space,
+	run_seed: u64,
+	listener: TcpListener,
+	addr: SocketAddr,
+	kern_mmr: (VecBackend<TxKernel>, u64),
+	out_mmr: (VecBackend<OutputIdentifier>, u64),
+}
+
+/// Own table of the protocol's per-type body limits (bytes, before the x4 slack), written
+/// from the protocol definition; used only to compute the allocation budget of framed input.
+fn my_limit(ty: u8) -> u64 {
+	let mbs = global::max_block_weight() / 21 * 708;
+	let base = match ty {
+		0 => 0,
+		1 => 128,
+		2 => 88,
+		3 | 4 => 16,
+		5 => 4,
+		6 => 4 + 19 * 256,
+		7 => 1 + 32 * 20,
+		8 => 365,
+		9 => 2 + 365 * 512,
+		10 | 12 | 19 | 20 => 32,
+		11 | 14 | 15 => mbs,
+		13 => mbs / 10,
+		16 => 40,
+		17 | 18 => 64,
+		21 | 23 | 25 | 27 => 41,
+		22 | 24 | 26 | 28 => 2 * mbs,
+		_ => mbs,
+	};
+	4 * base
+}
+
+/// Largest within-limit announced body length of the frames the codec would walk.
+fn announced_len(data: &[u8], net: u8) -> u64 {
+	let m = magic_for(net);
+	let mut o = 0usize;
+	let mut best = 0u64;
+	let mut n = 0;
+	while o + 11 <= data.len() && n < 128 {
+		if data[o] != m[0] || data[o + 1] != m[1] {
+			break;
+		}
+		let l = read_be(data, o + 3, 8);
+		if l > my_limit(data[o + 2]) {
+			break;
+		}
+		best = best.max(l);
+		match (o + 11).checked_add(l as usize) {
+			Some(x) if x <= data.len() => o = x,
+			_ => break,
+		}
+		n += 1;
+	}
+	best
+}
+
+fn make_bitmap(p: &mut Prng, n_leaves: u64) -> croaring::Bitmap {
+	let n = n_leaves.min(5000) as u32;
+	let mut b = croaring::Bitmap::new();
+	match p.below(7) {
+		0 => {
+			for i in 0..n {
+				b.add(i);
+			}
+		}
+		1 => {}
+		2 => {
+			for i in (0..n).step_by(2) {
+				b.add(i);
+			}
+		}
+		3 => {
+			for i in (1..n).step_by(2) {
+				b.add(i);
+			}
+		}
+		4 => {
+			b.add(0);
+		}
+		5 => {
+			if n > 0 {
+				b.add(n - 1);
+			}
+		}
+		_ => {
+			for i in 0..n {
+				if p.below(3) == 0 {
+					b.add(i);
+				}
+			}
+		}
+	}
+	b
+}
+
+fn seg_err(e: grin_core::core::SegmentError) -> String {
+	ek(e)
+}
+
+/// The stateless checks a received segment goes through before it is cached by the
+/// desegmenter: `root` / `first_unpruned_parent` / `validate` or `validate_with` against a
+/// (root, size) pair as found in an archive header.
+fn seg_post<T: PMMRIndexHashable>(m: &mut Mon, w: &WCtx, seg: &Segment<T>, kind: u8, aux: u32) {
+	let fxs = &w.corpus.fixtures;
+	let same: Vec<usize> = (0..fxs.len()).filter(|i| fxs[*i].kind == kind).collect();
+	if same.is_empty() {
+		return;
+	}
+	let mut chosen: Vec<usize> = vec![];
+	if (aux as usize) < fxs.len() && fxs[aux as usize].kind == kind {
+		chosen.push(aux as usize);
+	}
+	let o = same[m.prng.usize_below(same.len())];
+	if !chosen.contains(&o) {
+		chosen.push(o);
+	}
+	if m.prng.below(8) == 0 {
+		let o = same[m.prng.usize_below(same.len())];
+		if !chosen.contains(&o) {
+			chosen.push(o);
+		}
+	}
+	for fi in chosen {
+		let f = &fxs[fi];
+		let mut bitmaps: Vec<Option<croaring::Bitmap>> = vec![None];
+		if kind == FX_OUT || kind == FX_RP {
+			bitmaps.push(Some(make_bitmap(&mut m.prng, f.n_leaves)));
+			bitmaps.push(Some(make_bitmap(&mut m.prng, f.n_leaves)));
+		}
+		for bm in bitmaps.iter() {
+			let bm = bm.as_ref();
+			m.stage("Segment::root", false, || {
+				seg.root(f.size, bm).map(|_| ()).map_err(seg_err)
+			});
+			m.stage("Segment::first_unpruned_parent", false, || {
+				seg.first_unpruned_parent(f.size, bm).map(|_| ()).map_err(seg_err)
+			});
+			match kind {
+				FX_OUT => {
+					m.stage("Segment::validate_with", false, || {
+						seg.validate_with(f.size, bm, f.final_root, f.hash_last_pos, f.other, false)
+							.map_err(seg_err)
+					});
+				}
+				FX_BITMAP => {
+					m.stage("Segment::validate_with", false, || {
+						seg.validate_with(f.size, None, f.final_root, f.hash_last_pos, f.other, true)
+							.map_err(seg_err)
+					});
+				}
+				_ => {
+					m.stage("Segment::validate", false, || {
+						seg.validate(f.size, bm, f.root).map_err(seg_err)
+					});
+				}
+			}
+		}
+	}
+}
+
+fn bitmapseg_post(m: &mut Mon, w: &WCtx, bs: BitmapSegment, aux: u32) {
+	// the network path: protocol.rs converts with `into_segment()?` before `receive_bitmap_segment`
+	if let Some(seg) = m.stage("BitmapSegment::into_segment", false, || {
+		bs.into_segment().map_err(ek)
+	}) {
+		seg_post(m, w, &seg, FX_BITMAP, aux);
+	}
+}
+
+/// What a serving node computes from a requested identifier before reading its MMRs.
+fn segid_post(m: &mut Mon, w: &WCtx, id: SegmentIdentifier) {
+	for size in [1u64, 4, 7, w.kern_mmr.1, 1_000_003] {
+		m.stage("SegmentIdentifier::segment_pos_range", false, || {
+			let (a, b) = id.segment_pos_range(size);
+			std::hint::black_box((a, b, id.segment_capacity()));
+			Ok(())
+		});
+	}
+	m.stage("Segment::from_pmmr(non-prunable)", false, || {
+		let ro = ReadonlyPMMR::at(&w.kern_mmr.0, w.kern_mmr.1);
+		Segment::from_pmmr(id, &ro, false).map(|_| ()).map_err(seg_err)
+	});
+	m.stage("Segment::from_pmmr(prunable)", false, || {
+		let ro = ReadonlyPMMR::at(&w.out_mmr.0, w.out_mmr.1);
+		Segment::from_pmmr(id, &ro, true).map(|_| ()).map_err(seg_err)
+	});
+}
+
+fn body_post(m: &mut Mon, body: &TransactionBody) {
+	m.stage("TransactionBody::validate_read(AsBlock)", false, || {
+		body.validate_read(Weighting::AsBlock).map_err(ek)
+	});
+	m.stage("TransactionBody::validate_read(AsTransaction)", false, || {
+		body.validate_read(Weighting::AsTransaction).map_err(ek)
+	});
+}
+
+fn tx_post(m: &mut Mon, tx: &Transaction) {
+	m.stage("Transaction::validate_read", false, || tx.validate_read().map_err(ek));
+	body_post(m, &tx.body);
+}
+
+fn block_post(m: &mut Mon, blk: &Block) {
+	m.stage("Block::validate_read", false, || blk.validate_read().map_err(ek));
+	body_post(m, &blk.body);
+}
+
+fn message_post(m: &mut Mon, w: &WCtx, msg: Message, aux: u32) {
+	match msg {
+		Message::Transaction(tx) | Message::StemTransaction(tx) => tx_post(m, &tx),
+		Message::Block(b) => {
+			let blk: Block = b.into();
+			block_post(m, &blk);
+		}
+		Message::CompactBlock(cb) => {
+			let cb: grin_core::core::CompactBlock = cb.into();
+			std::hint::black_box(cb.kern_ids().len());
+		}
+		Message::OutputBitmapSegment(r) => bitmapseg_post(m, w, r.segment, aux),
+		Message::OutputSegment(r) => seg_post(m, w, &r.response.segment, FX_OUT, aux),
+		Message::RangeProofSegment(r) => seg_post(m, w, &r.segment, FX_RP, aux),
+		Message::KernelSegment(r) => seg_post(m, w, &r.segment, FX_KERN, aux),
+		Message::GetOutputBitmapSegment(r)
+		| Message::GetOutputSegment(r)
+		| Message::GetRangeProofSegment(r)
+		| Message::GetKernelSegment(r) => segid_post(m, w, r.identifier),
+		_ => {}
+	}
+}
+
+fn codec_case(m: &mut Mon, w: &WCtx, c: &Case) {
+	let client = match TcpStream::connect(w.addr) {
+		Ok(s) => s,
+		Err(e) => {
+			m.harness_errors.push(format!("loopback connect: {}", e));
+			return;
+		}
+	};
+	let server = match w.listener.accept() {
+		Ok((s, _)) => s,
+		Err(e) => {
+			m.harness_errors.push(format!("loopback accept: {}", e));
+			return;
+		}
+	};
+	let mut writer = None;
+	if c.bytes.len() <= 32 * 1024 {
+		let mut cl = client;
+		if let Err(e) = cl.write_all(&c.bytes) {
+			m.harness_errors.push(format!("loopback write: {}", e));
+			return;
+		}
+		let _ = cl.shutdown(Shutdown::Write);
+		writer = Some((cl, None));
+	} else {
+		let data = c.bytes.clone();
+		let mut cl2 = match client.try_clone() {
+			Ok(x) => x,
+			Err(e) => {
+				m.harness_errors.push(format!("loopback clone: {}", e));
+				return;
+			}
+		};
+		let h = std::thread::spawn(move || {
+			let _ = cl2.write_all(&data);
+			let _ = cl2.shutdown(Shutdown::Write);
+		});
+		writer = Some((client, Some(h)));
+	}
+	let mut codec = Codec::new(ProtocolVersion(c.ver), server);
+	for _ in 0..72 {
+		let r = m.stage("Codec::read", true, || {
+			let (r, _n) = codec.read();
+			r.map_err(ek)
+		});
+		match r {
+			Some(msg) => message_post(m, w, msg, c.aux),
+			None => break,
+		}
+	}
+	drop(codec);
+	if let Some((cl, h)) = writer.take() {
+		drop(cl);
+		if let Some(h) = h {
+			let _ = h.join();
+		}
+	}
+}
+
+fn exec_case(w: &WCtx, c: &Case, m: &mut Mon) {
+	let b: &[u8] = &c.bytes;
+	let v = c.ver;
+	let aux = c.aux;
+	match c.dec {
+		D_MSGHEADER => both!(m, MsgHeaderWrapper, b, v, |_m: &mut Mon, _x| {}),
+		D_HANDMSG => {
+			m.stage("read_message<Hand>", true, || {
+				let mut s: &[u8] = b;
+				grin_p2p::msg::read_message::<Hand, _>(&mut s, ProtocolVersion(v), Type::Hand)
+					.map(|_| ())
+					.map_err(ek)
+			});
+		}
+		D_SHAKEMSG => {
+			m.stage("read_message<Shake>", true, || {
+				let mut s: &[u8] = b;
+				grin_p2p::msg::read_message::<Shake, _>(&mut s, ProtocolVersion(v), Type::Shake)
+					.map(|_| ())
+					.map_err(ek)
+			});
+		}
+		D_HAND => both!(m, Hand, b, v, |_m: &mut Mon, _x| {}),
+		D_SHAKE => both!(m, Shake, b, v, |_m: &mut Mon, _x| {}),
+		D_PING => both!(m, Ping, b, v, |_m: &mut Mon, _x| {}),
+		D_PONG => both!(m, Pong, b, v, |_m: &mut Mon, _x| {}),
+		D_GETPEERADDRS => both!(m, GetPeerAddrs, b, v, |_m: &mut Mon, _x| {}),
+		D_PEERADDRS => both!(m, PeerAddrs, b, v, |_m: &mut Mon, _x| {}),
+		D_PEERERROR => both!(m, PeerError, b, v, |_m: &mut Mon, _x| {}),
+		D_LOCATOR => both!(m, Locator, b, v, |_m: &mut Mon, _x| {}),
+		D_BANREASON => both!(m, BanReason, b, v, |_m: &mut Mon, _x| {}),
+		D_TXHSREQ => both!(m, TxHashSetRequest, b, v, |_m: &mut Mon, _x| {}),
+		D_TXHSARCH => both!(m, TxHashSetArchive, b, v, |_m: &mut Mon, _x| {}),
+		D_HASH => both!(m, Hash, b, v, |_m: &mut Mon, _x| {}),
+		D_SEGREQ => both!(m, SegmentRequest, b, v, |m: &mut Mon, x: SegmentRequest| {
+			segid_post(m, w, x.identifier)
+		}),
+		D_SEGID => both!(m, SegmentIdentifier, b, v, |m: &mut Mon, x: SegmentIdentifier| {
+			segid_post(m, w, x)
+		}),
+		D_SEGPROOF => both!(m, SegmentProof, b, v, |_m: &mut Mon, _x| {}),
+		D_SEG_OUT => both!(
+			m,
+			Segment<OutputIdentifier>,
+			b,
+			v,
+			|m: &mut Mon, x: Segment<OutputIdentifier>| seg_post(m, w, &x, FX_OUT, aux)
+		),
+		D_SEG_RP => both!(
+			m,
+			Segment<RangeProof>,
+			b,
+			v,
+			|m: &mut Mon, x: Segment<RangeProof>| seg_post(m, w, &x, FX_RP, aux)
+		),
+		D_SEG_KERN => both!(
+			m,
+			Segment<TxKernel>,
+			b,
+			v,
+			|m: &mut Mon, x: Segment<TxKernel>| seg_post(m, w, &x, FX_KERN, aux)
+		),
+		D_SEG_CHUNK => both!(
+			m,
+			Segment<BitmapChunk>,
+			b,
+			v,
+			|m: &mut Mon, x: Segment<BitmapChunk>| seg_post(m, w, &x, FX_BITMAP, aux)
+		),
+		D_BITMAPSEG => both!(m, BitmapSegment, b, v, |m: &mut Mon, x: BitmapSegment| {
+			bitmapseg_post(m, w, x, aux)
+		}),
+		D_OUTSEGRESP => both!(
+			m,
+			OutputSegmentResponse,
+			b,
+			v,
+			|m: &mut Mon, x: OutputSegmentResponse| seg_post(m, w, &x.response.segment, FX_OUT, aux)
+		),
+		D_RPSEGRESP => both!(
+			m,
+			SegmentResponse<RangeProof>,
+			b,
+			v,
+			|m: &mut Mon, x: SegmentResponse<RangeProof>| seg_post(m, w, &x.segment, FX_RP, aux)
+		),
+		D_KERNSEGRESP => both!(
+			m,
+			SegmentResponse<TxKernel>,
+			b,
+			v,
+			|m: &mut Mon, x: SegmentResponse<TxKernel>| seg_post(m, w, &x.segment, FX_KERN, aux)
+		),
+		D_BITMAPSEGRESP => both!(
+			m,
+			OutputBitmapSegmentResponse,
+			b,
+			v,
+			|m: &mut Mon, x: OutputBitmapSegmentResponse| bitmapseg_post(m, w, x.segment, aux)
+		),
+		D_UHEADER => both!(m, UntrustedBlockHeader, b, v, |_m: &mut Mon, x: UntrustedBlockHeader| {
+			let h: BlockHeader = x.into();
+			std::hint::black_box(h.height);
+		}),
+		D_UBLOCK => both!(m, UntrustedBlock, b, v, |m: &mut Mon, x: UntrustedBlock| {
+			let blk: Block = x.into();
+			block_post(m, &blk)
+		}),
+		D_UCOMPACT => both!(m, UntrustedCompactBlock, b, v, |_m: &mut Mon, x: UntrustedCompactBlock| {
+			let cb: grin_core::core::CompactBlock = x.into();
+			std::hint::black_box(cb.kern_ids().len());
+		}),
+		D_TX => both!(m, Transaction, b, v, |m: &mut Mon, x: Transaction| tx_post(m, &x)),
+		D_TXBODY => both!(m, TransactionBody, b, v, |m: &mut Mon, x: TransactionBody| {
+			body_post(m, &x)
+		}),
+		D_PROOF => both!(m, Proof, b, v, |_m: &mut Mon, _x| {}),
+		D_POW => both!(m, ProofOfWork, b, v, |_m: &mut Mon, _x| {}),
+		D_MERKLE => both!(m, MerkleProof, b, v, |_m: &mut Mon, _x| {}),
+		D_MERKLE_HEXBIN => {
+			let hex = b.to_vec().to_hex();
+			m.stage("MerkleProof::from_hex", true, || {
+				MerkleProof::from_hex(&hex).map(|_| ()).map_err(|_| "deserialize".to_string())
+			});
+		}
+		D_MERKLE_HEXSTR => {
+			let s = String::from_utf8_lossy(b).to_string();
+			m.stage("MerkleProof::from_hex", true, || {
+				MerkleProof::from_hex(&s).map(|_| ()).map_err(|_| "deserialize".to_string())
+			});
+		}
+		D_CODEC => codec_case(m, w, c),
+		_ => {}
+	}
+}
+
+fn budget_len(c: &Case) -> u64 {
+	let len = c.bytes.len() as u64;
+	if is_framed(c.dec) {
+		len + announced_len(&c.bytes, c.net)
+	} else {
+		len
+	}
+}
+
+// ------------------------------------------------------------------ worker
+
+fn now_ms() -> u64 {
+	SystemTime::now()
+		.duration_since(UNIX_EPOCH)
+		.map(|d| d.as_millis() as u64)
+		.unwrap_or(0)
+}
+
+fn arg_val(args: &[String], name: &str) -> Option<String> {
+	args.iter()
+		.position(|a| a == name)
+		.and_then(|i| args.get(i + 1).cloned())
+}
+
+fn parse_ids(s: &str) -> Vec<u64> {
+	s.split(',').filter_map(|x| x.trim().parse().ok()).collect()
+}
+
+fn hex_of(b: &[u8]) -> String {
+	b.to_vec().to_hex()
+}
+
+struct WorkerAgg {
+	counts: HashMap<String, u64>,
+	sigs: HashSet<u64>,
+	fsig_counts: HashMap<String, u64>,
+	best_len: HashMap<String, usize>,
+	honest_max_single: u64,
+	honest_max_peak: u64,
+	cases: u64,
+	evals: u64,
+}
+
+fn worker_main(args: &[String]) {
+	let wi = args.iter().position(|a| a == "--worker").unwrap();
+	let shard: u64 = args[wi + 1].parse().expect("shard");
+	let nshards: u64 = args[wi + 2].parse().expect("nshards");
+	let tier = match arg_val(args, "--tier").as_deref() {
+		Some("thorough") => Tier::Thorough,
+		_ => Tier::Quick,
+	};
+	let run_seed: u64 = arg_val(args, "--seed").and_then(|s| s.parse().ok()).unwrap_or(1);
+	let corpus_path = arg_val(args, "--corpus").expect("--corpus");
+	let from: u64 = arg_val(args, "--from").and_then(|s| s.parse().ok()).unwrap_or(0);
+	let stride: u64 = arg_val(args, "--stride").and_then(|s| s.parse().ok()).unwrap_or(1).max(1);
+	let deadline: u64 = arg_val(args, "--deadline").and_then(|s| s.parse().ok()).unwrap_or(u64::MAX);
+	let skip: HashSet<u64> = arg_val(args, "--skip").map(|s| parse_ids(&s)).unwrap_or_default().into_iter().collect();
+	let ids: Option<Vec<u64>> = arg_val(args, "--ids").map(|s| parse_ids(&s));
+	let trace = args.iter().any(|a| a == "--trace");
+
+	world::init_globals(true);
+	set_net(0);
+	let raw = std::fs::read(&corpus_path).expect("read corpus");
+	let corpus = Corpus::from_bytes(&raw);
+	drop(raw);
+	let space = build_space(&corpus, tier);
+	let listener = TcpListener::bind("127.0.0.1:0").expect("bind loopback");
+	let addr = listener.local_addr().expect("local addr");
+	let mut fp = Prng::new(0xF1C5);
+	let kerns: Vec<TxKernel> = (0..40).map(|i| rnd_kernel(&mut fp, i)).collect();
+	let outs: Vec<OutputIdentifier> = (0..40).map(|i| rnd_outid(&mut fp, i)).collect();
+	let (kb, ks, _) = build_mmr(&kerns);
+	let (ob, os, _) = build_mmr(&outs);
+	let w = WCtx {
+		corpus,
+		space,
+		run_seed,
+		listener,
+		addr,
+		kern_mmr: (kb, ks),
+		out_mmr: (ob, os),
+	};
+
+	monitor::HARD_CAP.store(HARD_CAP_BYTES, std::sync::atomic::Ordering::SeqCst);
+	monitor::install_panic_hook();
+	let installed = alloc_monitor_installed();
+	watchdog_start(CASE_BUDGET_MS);
+
+	let stdout = std::io::stdout();
+	let emit = |v: Value| {
+		let mut l = stdout.lock();
+		let _ = writeln!(l, "{}", v);
+		let _ = l.flush();
+	};
+	emit(json!({"t": "s", "shard": shard, "alloc_monitor": installed, "total": w.space.total, "seeds": w.corpus.seeds.len()}));
+
+	let mut agg = WorkerAgg {
+		counts: HashMap::new(),
+		sigs: HashSet::new(),
+		fsig_counts: HashMap::new(),
+		best_len: HashMap::new(),
+		honest_max_single: 0,
+		honest_max_peak: 0,
+		cases: 0,
+		evals: 0,
+	};
+	let flush = |agg: &mut WorkerAgg, next: u64, done: bool, timeout: bool| {
+		let counts: serde_json::Map<String, Value> =
+			agg.counts.drain().map(|(k, v)| (k, json!(v))).collect();
+		let fs: serde_json::Map<String, Value> =
+			agg.fsig_counts.drain().map(|(k, v)| (k, json!(v))).collect();
+		let sigs: Vec<u64> = agg.sigs.drain().collect();
+		emit(json!({
+			"t": "p", "next": next, "done": done, "timeout": timeout,
+			"counts": counts, "fsig": fs, "sigs": sigs,
+			"cases": agg.cases, "evals": agg.evals,
+			"honest_max_single": agg.honest_max_single, "honest_max_peak": agg.honest_max_peak,
+		}));
+		agg.cases = 0;
+		agg.evals = 0;
+	};
+
+	let selftest: Option<(String, u64)> = std::env::var("C11_SELFTEST").ok().and_then(|v| {
+		let mut it = v.splitn(2, ':');
+		let a = it.next()?.to_string();
+		let b = it.next()?.parse().ok()?;
+		Some((a, b))
+	});
+	let total = w.space.total;
+	let id_list: Vec<u64> = match &ids {
+		Some(v) => v.iter().cloned().filter(|i| *i < total).collect(),
+		None => vec![],
+	};
+	let mut cursor = if ids.is_some() { 0 } else { from };
+	let mut last_flush = Instant::now();
+	let mut since_flush = 0u64;
+	let mut timed_out = false;
+	loop {
+		// next case id of this shard
+		let id = if ids.is_some() {
+			if (cursor as usize) >= id_list.len() {
+				break;
+			}
+			let x = id_list[cursor as usize];
+			cursor += 1;
+			x
+		} else {
+			while cursor < total
+				&& (cursor % nshards != shard || (cursor / nshards) % stride != 0 || skip.contains(&cursor))
+			{
+				cursor += 1;
+			}
+			if cursor >= total {
+				break;
+			}
+			let x = cursor;
+			cursor += 1;
+			x
+		};
+		if since_flush % 64 == 0 && now_ms() > deadline {
+			timed_out = true;
+			if ids.is_none() {
+				cursor = id;
+			}
+			break;
+		}
+		if trace {
+			eprintln!("TRACE {}", id);
+		}
+		let c = make_case(&w.corpus, &w.space, w.run_seed, id);
+		if let Some((what, sid)) = &selftest {
+			// fault injection for testing the parent's exit-status handling (inert unless the env var is set)
+			if *sid == id {
+				match what.as_str() {
+					"hang" => {
+						watchdog_enter(stage_key(id, 0));
+						loop {
+							std::thread::sleep(Duration::from_millis(100));
+						}
+					}
+					"abort" => std::process::abort(),
+					"exit3" => std::process::exit(3),
+					_ => {}
+				}
+			}
+		}
+		set_net(c.net);
+		let mut m = Mon::new(id, c.dec, budget_len(&c), case_prng(run_seed ^ 0x51, id));
+		if c.dec == D_MERKLE_HEXBIN {
+			m.len = 2 * c.bytes.len() as u64;
+		}
+		exec_case(&w, &c, &mut m);
+		set_net(0);
+
+		// aggregate
+		agg.cases += 1;
+		let dname = DECODERS[c.dec];
+		let cname = CLASS_NAMES[c.class as usize];
+		*agg.counts.entry(format!("cases.dec.{}", dname)).or_insert(0) += 1;
+		*agg.counts.entry(format!("cases.class.{}", cname)).or_insert(0) += 1;
+		if c.dec == D_CODEC {
+			*agg.counts.entry("cases.socket".into()).or_insert(0) += 1;
+		}
+		for r in &m.results {
+			agg.evals += 1;
+			let o = if r.outcome == "ok" {
+				"ok"
+			} else if r.outcome.starts_with("err") {
+				"err"
+			} else {
+				"viol"
+			};
+			if r.decode {
+				*agg.counts.entry(format!("dec.{}.{}", dname, o)).or_insert(0) += 1;
+				*agg.counts.entry(format!("class.{}.{}", cname, o)).or_insert(0) += 1;
+			} else {
+				*agg.counts.entry(format!("post.{}.{}", r.stage, o)).or_insert(0) += 1;
+			}
+			let sig = format!("{}|{}|{}|{}|v{}|n{}", dname, cname, r.stage, r.outcome, c.ver, c.net);
+			agg.sigs.insert(fnv64(sig.as_bytes()));
+		}
+		if c.class == Class::Honest {
+			agg.honest_max_single = agg.honest_max_single.max(m.max_single);
+			agg.honest_max_peak = agg.honest_max_peak.max(m.max_peak);
+			let s = &w.corpus.seeds[c.seed as usize];
+			let first_ok = m.results.iter().find(|r| r.decode).map(|r| r.outcome == "ok").unwrap_or(false);
+			let all_decode_ok = m.results.iter().filter(|r| r.decode).all(|r| r.outcome == "ok");
+			if s.expect_ok && !(first_ok && (c.dec == D_CODEC || all_decode_ok)) {
+				*agg.counts.entry("honest.unexpected_err".into()).or_insert(0) += 1;
+				let outs: Vec<String> = m.results.iter().map(|r| format!("{}={}", r.stage, r.outcome)).collect();
+				emit(json!({"t": "h", "id": id, "dec": dname, "ver": c.ver, "net": c.net, "label": s.label, "results": outs}));
+			} else if s.expect_ok {
+				*agg.counts.entry("honest.ok".into()).or_insert(0) += 1;
+			}
+			if m.findings.iter().any(|f| f.event == "over-alloc") {
+				*agg.counts.entry("honest.alloc_oracle_trips".into()).or_insert(0) += 1;
+			}
+		}
+		for e in &m.harness_errors {
+			emit(json!({"t": "e", "id": id, "what": e}));
+		}
+		for f in &m.findings {
+			*agg.fsig_counts.entry(f.sig.clone()).or_insert(0) += 1;
+			let better = match agg.best_len.get(&f.sig) {
+				None => true,
+				Some(l) => c.bytes.len() < *l,
+			};
+			if better {
+				agg.best_len.insert(f.sig.clone(), c.bytes.len());
+				let shown = c.bytes.len().min(4096);
+				emit(json!({
+					"t": "f", "sig": f.sig, "id": id, "dec": dname, "stage": f.stage, "class": cname,
+					"ver": c.ver, "net": c.net, "len": c.bytes.len(), "event": f.event,
+					"msg": f.msg, "loc": f.loc, "max_single": f.max_single, "peak": f.peak,
+					"desc": c.desc, "hex": hex_of(&c.bytes[..shown]), "hex_truncated": shown < c.bytes.len(),
+				}));
+			}
+		}
+		since_flush += 1;
+		if since_flush >= 4000 || last_flush.elapsed() > Duration::from_millis(700) {
+			flush(&mut agg, cursor, false, false);
+			since_flush = 0;
+			last_flush = Instant::now();
+		}
+	}
+	flush(&mut agg, cursor, !timed_out, timed_out);
+}
+
+// ------------------------------------------------------------------ parent
+
+enum PMsg {
+	Line(usize, String),
+	Exit(usize, Option<i32>, Option<i32>, String),
+}
+
+#[derive(Default)]
+struct FInfo {
+	count: u64,
+	decs: BTreeSet<String>,
+	stages: BTreeSet<String>,
+	classes: BTreeSet<String>,
+	ids: Vec<u64>,
+	best: Option<Value>,
+}
+
+#[derive(Default)]
+struct Agg {
+	counts: BTreeMap<String, u64>,
+	sigs: HashSet<u64>,
+	evals: u64,
+	cases: u64,
+	findings: BTreeMap<String, FInfo>,
+	honest_max_single: u64,
+	honest_max_peak: u64,
+	alloc_monitor_ok: bool,
+	alloc_monitor_seen: bool,
+	notes: Vec<String>,
+}
+
+impl Agg {
+	fn add_finding(&mut self, sig: &str, v: &Value, n: u64) {
+		let fi = self.findings.entry(sig.to_string()).or_default();
+		fi.count += n;
+		if let Some(d) = v.get("dec").and_then(|x| x.as_str()) {
+			fi.decs.insert(d.to_string());
+		}
+		if let Some(d) = v.get("stage").and_then(|x| x.as_str()) {
+			fi.stages.insert(d.to_string());
+		}
+		if let Some(d) = v.get("class").and_then(|x| x.as_str()) {
+			fi.classes.insert(d.to_string());
+		}
+		if let Some(id) = v.get("id").and_then(|x| x.as_u64()) {
+			if fi.ids.len() < 8 && !fi.ids.contains(&id) {
+				fi.ids.push(id);
+			}
+		}
+		let len = v.get("len").and_then(|x| x.as_u64()).unwrap_or(u64::MAX);
+		let better = match &fi.best {
+			None => true,
+			Some(b) => len < b.get("len").and_then(|x| x.as_u64()).unwrap_or(u64::MAX),
+		};
+		if better && v.get("len").is_some() {
+			fi.best = Some(v.clone());
+		}
+	}
+
+	fn line(&mut self, line: &str, count_progress: bool) -> Option<Value> {
+		let v: Value = match serde_json::from_str(line) {
+			Ok(v) => v,
+			Err(_) => return None,
+		};
+		match v.get("t").and_then(|x| x.as_str()) {
+			Some("s") => {
+				let ok = v.get("alloc_monitor").and_then(|x| x.as_bool()).unwrap_or(false);
+				self.alloc_monitor_ok = if self.alloc_monitor_seen {
+					self.alloc_monitor_ok && ok
+				} else {
+					ok
+				};
+				self.alloc_monitor_seen = true;
+			}
+			Some("p") => {
+				if count_progress {
+					if let Some(c) = v.get("counts").and_then(|x| x.as_object()) {
+						for (k, n) in c {
+							*self.counts.entry(k.clone()).or_insert(0) += n.as_u64().unwrap_or(0);
+						}
+					}
+					if let Some(c) = v.get("sigs").and_then(|x| x.as_array()) {
+						for s in c {
+							if let Some(s) = s.as_u64() {
+								self.sigs.insert(s);
+							}
+						}
+					}
+					self.evals += v.get("evals").and_then(|x| x.as_u64()).unwrap_or(0);
+					self.cases += v.get("cases").and_then(|x| x.as_u64()).unwrap_or(0);
+					self.honest_max_single = self
+						.honest_max_single
+						.max(v.get("honest_max_single").and_then(|x| x.as_u64()).unwrap_or(0));
+					self.honest_max_peak = self
+						.honest_max_peak
+						.max(v.get("honest_max_peak").and_then(|x| x.as_u64()).unwrap_or(0));
+				}
+				if let Some(c) = v.get("fsig").and_then(|x| x.as_object()) {
+					for (k, n) in c {
+						if count_progress {
+							self.findings.entry(k.clone()).or_default().count += n.as_u64().unwrap_or(0);
+						} else {
+							self.findings.entry(k.clone()).or_default();
+						}
+					}
+				}
+			}
+			Some("f") => {
+				if let Some(sig) = v.get("sig").and_then(|x| x.as_str()) {
+					let sig = sig.to_string();
+					self.add_finding(&sig, &v, 0);
+				}
+			}
+			Some("h") => {
+				if self.notes.len() < 40 {
+					self.notes.push(format!("honest seed did not decode: {}", v));
+				}
+			}
+			Some("e") => {
+				if self.notes.len() < 40 {
+					self.notes.push(format!("harness error: {}", v));
+				}
+			}
+			_ => {}
+		}
+		Some(v)
+	}
+}
+
+struct Spawn {
+	exe: std::path::PathBuf,
+	corpus_path: String,
+	tier: Tier,
+	seed: u64,
+	stride: u64,
+	deadline: u64,
+}
+
+impl Spawn {
+	fn cmd(&self, shard: u64, from: u64, skip: &[u64], ids: Option<&[u64]>, trace: bool) -> Command {
+		let mut c = Command::new(&self.exe);
+		c.arg("--worker")
+			.arg(shard.to_string())
+			.arg(NSHARDS.to_string())
+			.arg("--corpus")
+			.arg(&self.corpus_path)
+			.arg("--tier")
+			.arg(self.tier.name())
+			.arg("--seed")
+			.arg(self.seed.to_string())
+			.arg("--from")
+			.arg(from.to_string())
+			.arg("--stride")
+			.arg(self.stride.to_string())
+			.arg("--deadline")
+			.arg(self.deadline.to_string());
+		if !skip.is_empty() {
+			let s: Vec<String> = skip.iter().map(|x| x.to_string()).collect();
+			c.arg("--skip").arg(s.join(","));
+		}
+		if let Some(ids) = ids {
+			let s: Vec<String> = ids.iter().map(|x| x.to_string()).collect();
+			c.arg("--ids").arg(s.join(","));
+		}
+		if trace {
+			c.arg("--trace");
+		}
+		c.stdin(Stdio::null()).stdout(Stdio::piped()).stderr(Stdio::piped());
+		c
+	}
+
+	fn start(&self, slot: usize, mut c: Command, tx: mpsc::Sender<PMsg>) -> Result<(), String> {
+		let mut child = c.spawn().map_err(|e| format!("spawn worker: {}", e))?;
+		let stdout = child.stdout.take().unwrap();
+		let mut stderr = child.stderr.take().unwrap();
+		let eh = std::thread::spawn(move || {
+			// keep the tail only (trace mode prints one line per case)
+			let mut tail: Vec<u8> = vec![];
+			let mut buf = [0u8; 8192];
+			loop {
+				match stderr.read(&mut buf) {
+					Ok(0) | Err(_) => break,
+					Ok(n) => {
+						tail.extend_from_slice(&buf[..n]);
+						if tail.len() > 16384 {
+							let cut = tail.len() - 8192;
+							tail.drain(..cut);
+						}
+					}
+				}
+			}
+			String::from_utf8_lossy(&tail).to_string()
+		});
+		std::thread::spawn(move || {
+			let rd = std::io::BufReader::new(stdout);
+			for l in rd.lines() {
+				match l {
+					Ok(l) => {
+						let _ = tx.send(PMsg::Line(slot, l));
+					}
+					Err(_) => break,
+				}
+			}
+			let err = eh.join().unwrap_or_default();
+			use std::os::unix::process::ExitStatusExt;
+			match child.wait() {
+				Ok(st) => {
+					let _ = tx.send(PMsg::Exit(slot, st.code(), st.signal(), err));
+				}
+				Err(e) => {
+					let _ = tx.send(PMsg::Exit(slot, Some(-1), None, format!("wait: {} {}", e, err)));
+				}
+			}
+		});
+		Ok(())
+	}
+
+	/// Run one worker over an explicit list of case ids and wait for it.
+	fn run_ids(&self, ids: &[u64], trace: bool, agg: Option<&mut Agg>) -> (Option<i32>, Option<i32>, String) {
+		let (tx, rx) = mpsc::channel();
+		let mut me = Spawn {
+			exe: self.exe.clone(),
+			corpus_path: self.corpus_path.clone(),
+			tier: self.tier,
+			seed: self.seed,
+			stride: 1,
+			deadline: u64::MAX,
+		};
+		me.stride = 1;
+		let c = me.cmd(0, 0, &[], Some(ids), trace);
+		if let Err(e) = me.start(0, c, tx) {
+			return (Some(-1), None, e);
+		}
+		let mut agg = agg;
+		loop {
+			match rx.recv() {
+				Ok(PMsg::Line(_, l)) => {
+					if let Some(a) = agg.as_deref_mut() {
+						a.line(&l, true);
+					}
+				}
+				Ok(PMsg::Exit(_, code, sig, err)) => return (code, sig, err),
+				Err(_) => return (Some(-1), None, "worker channel closed".into()),
+			}
+		}
+	}
+}
+
+fn parse_marker(stderr: &str, marker: &str) -> Option<(u64, u64)> {
+	// "<marker> case=<key> size=<n>" or "<marker> case=<key>"
+	let i = stderr.rfind(marker)?;
+	let rest = &stderr[i + marker.len()..];
+	let num = |s: &str, key: &str| -> Option<u64> {
+		let j = s.find(key)?;
+		let t: String = s[j + key.len()..].chars().take_while(|c| c.is_ascii_digit()).collect();
+		t.parse().ok()
+	};
+	let line = rest.lines().next().unwrap_or("");
+	let key = num(line, "case=")?;
+	Some((key, num(line, "size=").unwrap_or(0)))
+}
+
+fn last_trace(stderr: &str) -> Option<u64> {
+	stderr
+		.lines()
+		.rev()
+		.find_map(|l| l.strip_prefix("TRACE ").and_then(|x| x.trim().parse().ok()))
+}
+
+fn case_json(c: &Case) -> Value {
+	let shown = c.bytes.len().min(4096);
+	json!({
+		"id": c.id, "dec": DECODERS[c.dec], "class": CLASS_NAMES[c.class as usize], "ver": c.ver, "net": c.net,
+		"len": c.bytes.len(), "desc": c.desc, "hex": hex_of(&c.bytes[..shown]), "hex_truncated": shown < c.bytes.len(),
+	})
+}
+
+struct Shard {
+	next: u64,
+	skip: Vec<u64>,
+	done: bool,
+	complete: bool,
+	restarts: u32,
+	trace: bool,
+	got_final: bool,
+	last_death: Option<(Option<i32>, Option<i32>)>,
+}
+
+fn parent_main() {
+	let run = Run::from_env("C11", "exploration");
+	let t0 = Instant::now();
+	let san = run
+		.args
+		.iter()
+		.position(|a| a == "--san")
+		.and_then(|i| run.args.get(i + 1).cloned());
+	let stride: u64 = match san.as_deref() {
+		None => 1,
+		Some("valgrind") => 400,
+		Some(_) => 10,
+	};
+	run.set_rule(
+		"case id -> (decoder, protocol version in {1,2,3,1000}, chain parameters {testing, mainnet}, seed encoding, \
+		 mutation class, parameter) -> bytes, deterministic in (tier, seed). Seeds: valid encodings of every p2p message \
+		 body / block / tx / segment / Merkle proof type with their field layout recorded by a layout-recording Writer. \
+		 Classes: honest; field (every integer field := 0,1,actual+-1,2^k,2^k-1,max,protocol boundary constants); tag (every \
+		 1-byte field swept 0..=255); trunc (every offset); splice (field runs of other messages); bitflip; havoc (stacked \
+		 operators); random (0..4096 bytes, four styles); fill (0x00/0xff/0x01/0x80 repeated). Every case is run through the \
+		 BufReader and BinReader entry points (or read_message / Codec::read over a loopback socket / from_hex) and, when it \
+		 decodes, through the stateless post-decode checks (validate_read, BitmapSegment::into_segment, Segment::root / \
+		 first_unpruned_parent / validate / validate_with against (root,size) pairs, segment_pos_range / from_pmmr for \
+		 requested identifiers), each stage under the panic, allocation (single request > 16*len+2MiB or live > 64*len+8MiB; \
+		 for framed input len += announced within-limit length) and watchdog (20 s) monitors. A shape is non-trivial/distinct \
+		 per (decoder, class, stage, outcome kind, version, net).",
+	);
+	run.assume("trusted base: the harness' allocator wrapper, panic hook and watchdog; Linux loopback sockets");
+	run.assume("MerkleProof::verify, API JSON layers and chain-bound segment application are outside this check");
+
+	let corpus = build_corpus(run.seed);
+	let space = build_space(&corpus, run.tier);
+	let sc = Scratch::new("c11");
+	let corpus_path = sc.sub("corpus.bin");
+	std::fs::write(&corpus_path, corpus.to_bytes()).expect("write corpus");
+	run.count("corpus.seeds", corpus.seeds.len() as u64);
+	run.count("corpus.bytes_fnv_low32", fnv64(&corpus.to_bytes()) & 0xffff_ffff);
+	run.count("space.total_cases", space.total);
+	let build_s = t0.elapsed().as_secs_f64();
+
+	let explore_budget_ms: u64 = run.tier.pick(66_000, 600_000);
+	let sp = Spawn {
+		exe: std::env::current_exe().expect("current_exe"),
+		corpus_path: corpus_path.clone(),
+		tier: run.tier,
+		seed: run.seed,
+		stride,
+		deadline: now_ms() + explore_budget_ms,
+	};
+	let mut agg = Agg::default();
+	let mut hangs: Vec<u64> = vec![];
+	let mut aborts: Vec<(u64, String)> = vec![];
+	let mut explored_all = true;
+
+	if let Some(rp) = &run.replay {
+		// replay: re-run only the recorded case ids (same seed / tier as the recording run)
+		let ids: Vec<u64> = std::fs::read_to_string(rp)
+			.ok()
+			.and_then(|s| serde_json::from_str::<Value>(&s).ok())
+			.and_then(|v| v.get("case").and_then(|c| c.get("case_ids")).cloned())
+			.and_then(|v| v.as_array().map(|a| a.iter().filter_map(|x| x.as_u64()).collect()))
+			.unwrap_or_default();
+		if ids.is_empty() {
+			run.inconclusive("replay file has no case ids");
+		}
+		for id in ids {
+			let (code, sig, err) = sp.run_ids(&[id], false, Some(&mut agg));
+			classify_single(&corpus, &space, run.seed, id, code, sig, &err, &mut agg, &mut hangs, &mut aborts);
+		}
+	} else {
+		let (tx, rx) = mpsc::channel();
+		let mut shards: Vec<Shard> = (0..NSHARDS)
+			.map(|_| Shard {
+				next: 0,
+				skip: vec![],
+				done: false,
+				complete: false,
+				restarts: 0,
+				trace: false,
+				got_final: false,
+				last_death: None,
+			})
+			.collect();
+		for s in 0..NSHARDS as usize {
+			let c = sp.cmd(s as u64, 0, &[], None, false);
+			if let Err(e) = sp.start(s, c, tx.clone()) {
+				run.inconclusive(&e);
+				shards[s].done = true;
+			}
+		}
+		while shards.iter().any(|s| !s.done) {
+			let msg = match rx.recv_timeout(Duration::from_secs(CASE_BUDGET_MS / 1000 + 60)) {
+				Ok(m) => m,
+				Err(_) => {
+					run.inconclusive("no message from any worker for too long; giving up on the remaining shards");
+					explored_all = false;
+					break;
+				}
+			};
+			match msg {
+				PMsg::Line(s, l) => {
+					if let Some(v) = agg.line(&l, true) {
+						if v.get("t").and_then(|x| x.as_str()) == Some("p") {
+							if let Some(n) = v.get("next").and_then(|x| x.as_u64()) {
+								shards[s].next = n;
+							}
+							if v.get("done").and_then(|x| x.as_bool()) == Some(true) {
+								shards[s].got_final = true;
+								shards[s].complete = true;
+							}
+							if v.get("timeout").and_then(|x| x.as_bool()) == Some(true) {
+								shards[s].got_final = true;
+							}
+						}
+					}
+				}
+				PMsg::Exit(s, code, sig, err) => {
+					let sh = &mut shards[s];
+					let mut restart = false;
+					if code == Some(0) {
+						if !sh.got_final {
+							run.inconclusive(&format!("shard {} exited 0 without a final summary", s));
+						}
+						if !sh.complete {
+							explored_all = false;
+						}
+						sh.done = true;
+					} else if code == Some(EXIT_ALLOC_OVER_CAP) {
+						match parse_marker(&err, "ALLOC-OVER-CAP") {
+							Some((key, size)) => {
+								let id = key >> 8;
+								let code = key & 255;
+								let c = make_case(&corpus, &space, run.seed, id);
+								let stage = if code < 16 { "decode" } else { "post" };
+								let sigs = format!("event=over-alloc;decoder={};stage={}", sig_dec(c.dec), stage);
+								let mut v = case_json(&c);
+								v["stage"] = json!(format!("{} (stage code {})", stage, code));
+								v["event"] = json!("over-alloc");
+								v["msg"] = json!(format!(
+									"single allocation request of {} bytes (> hard cap {}; budget for this input {})",
+									size, HARD_CAP_BYTES, single_budget(budget_len(&c))
+								));
+								v["max_single"] = json!(size);
+								agg.add_finding(&sigs, &v, 1);
+								*agg.counts.entry("worker.over_cap_exits".into()).or_insert(0) += 1;
+								*agg.counts.entry(format!("dec.{}.viol", DECODERS[c.dec])).or_insert(0) += 1;
+								sh.skip.push(id);
+								restart = true;
+							}
+							None => {
+								run.inconclusive(&format!("shard {}: exit 86 without ALLOC-OVER-CAP marker: {}", s, tail(&err)));
+								sh.done = true;
+								explored_all = false;
+							}
+						}
+					} else if code == Some(EXIT_HANG) {
+						match parse_marker(&err, "HANG") {
+							Some((key, _)) => {
+								let id = key >> 8;
+								hangs.push(id);
+								*agg.counts.entry("worker.hang_exits".into()).or_insert(0) += 1;
+								sh.skip.push(id);
+								restart = true;
+							}
+							None => {
+								run.inconclusive(&format!("shard {}: exit 87 without HANG marker", s));
+								sh.done = true;
+								explored_all = false;
+							}
+						}
+					} else {
+						// death by signal or an unexpected exit code: attribute with a traced re-run
+						*agg.counts.entry("worker.abnormal_exits".into()).or_insert(0) += 1;
+						if sh.trace {
+							match last_trace(&err) {
+								Some(id) => {
+									if sig.is_some() {
+										aborts.push((id, format!("signal {:?}", sig)));
+									} else {
+										run.inconclusive(&format!(
+											"worker failed (exit code {:?}) while running case {}: {}",
+											code, id, tail(&err)
+										));
+									}
+									sh.skip.push(id);
+									restart = true;
+								}
+								None => {
+									run.inconclusive(&format!("shard {}: worker died ({:?}/{:?}) before any case: {}", s, code, sig, tail(&err)));
+									sh.done = true;
+									explored_all = false;
+								}
+							}
+						} else {
+							sh.trace = true;
+							sh.last_death = Some((code, sig));
+							restart = true;
+						}
+					}
+					if restart {
+						sh.restarts += 1;
+						sh.got_final = false;
+						if sh.restarts > 5000 || now_ms() > sp.deadline {
+							run.inconclusive(&format!("shard {}: restart/time budget exhausted at case {}", s, sh.next));
+							sh.done = true;
+							explored_all = false;
+						} else {
+							let c = sp.cmd(s as u64, sh.next, &sh.skip, None, sh.trace);
+							if let Err(e) = sp.start(s, c, tx.clone()) {
+								run.inconclusive(&e);
+								sh.done = true;
+								explored_all = false;
+							}
+						}
+					}
+				}
+			}
+		}
+		for (s, sh) in shards.iter().enumerate() {
+			if sh.trace && sh.last_death.is_some() && !aborts.iter().any(|_| true) && sh.complete {
+				agg.notes.push(format!(
+					"shard {}: one worker death ({:?}) did not reproduce in the traced re-run",
+					s, sh.last_death
+				));
+			}
+		}
+	}
+	let explore_s = t0.elapsed().as_secs_f64() - build_s;
+
+	// ---- confirmations: a hang / abort is a violation only if the single case reproduces it alone
+	hangs.sort();
+	hangs.dedup();
+	for id in hangs.iter().take(6) {
+		let c = make_case(&corpus, &space, run.seed, *id);
+		let (code, _sig, err) = sp.run_ids(&[*id], false, None);
+		if code == Some(EXIT_HANG) {
+			let (key, _) = parse_marker(&err, "HANG").unwrap_or((0, 0));
+			let stage = if key & 255 < 16 { "decode" } else { "post" };
+			let sigs = format!("event=hang;decoder={};stage={}", sig_dec(c.dec), stage);
+			let mut v = case_json(&c);
+			v["stage"] = json!(stage);
+			v["event"] = json!("hang");
+			v["msg"] = json!(format!("no return within {} ms, reproduced alone in a fresh worker", CASE_BUDGET_MS));
+			agg.add_finding(&sigs, &v, 1);
+		} else {
+			run.inconclusive(&format!("case {} exceeded the case budget once but not when re-run alone", id));
+		}
+	}
+	if hangs.len() > 6 {
+		run.inconclusive(&format!("{} further hang candidates not re-run (time)", hangs.len() - 6));
+	}
+	for (id, how) in aborts.iter().take(6) {
+		let c = make_case(&corpus, &space, run.seed, *id);
+		let (code, sig, _err) = sp.run_ids(&[*id], true, None);
+		if sig.is_some() {
+			let sigs = format!("event=abort(signal {});decoder={}", sig.unwrap(), sig_dec(c.dec));
+			let mut v = case_json(&c);
+			v["stage"] = json!("?");
+			v["event"] = json!("abort");
+			v["msg"] = json!(format!("worker killed by {} on this case, reproduced alone", how));
+			agg.add_finding(&sigs, &v, 1);
+		} else {
+			run.inconclusive(&format!("case {}: worker death ({}) did not reproduce alone (exit {:?})", id, how, code));
+		}
+	}
+
+	// ---- verdicts
+	for (sig, fi) in agg.findings.iter() {
+		if fi.best.is_none() {
+			run.inconclusive(&format!("finding {} reported without an example", sig));
+			continue;
+		}
+		let b = fi.best.as_ref().unwrap();
+		let g = |k: &str| b.get(k).map(|x| x.to_string()).unwrap_or_default();
+		let hex = b.get("hex").and_then(|x| x.as_str()).unwrap_or("");
+		let what = format!(
+			"{} occurrence(s); decoders {:?}; stages {:?}; classes {:?}. Minimal reproducer: decoder={} version={} net={} class={} [{}] len={} bytes={}{} -> {} {} {}",
+			fi.count.max(1),
+			fi.decs,
+			fi.stages,
+			fi.classes,
+			g("dec"),
+			g("ver"),
+			g("net"),
+			g("class"),
+			b.get("desc").and_then(|x| x.as_str()).unwrap_or(""),
+			g("len"),
+			&hex[..hex.len().min(600)],
+			if hex.len() > 600 { "..." } else { "" },
+			g("event"),
+			b.get("msg").and_then(|x| x.as_str()).unwrap_or(""),
+			b.get("loc").and_then(|x| x.as_str()).unwrap_or(""),
+		);
+		run.violation(sig, &what, json!({"case_ids": fi.ids, "min": b}));
+	}
+	for n in agg.notes.iter() {
+		run.inconclusive(n);
+	}
+
+	// ---- evidence
+	for (k, v) in agg.counts.iter() {
+		run.count(k, *v);
+	}
+	run.count("honest.max_single_request", agg.honest_max_single);
+	run.count("honest.max_peak_live", agg.honest_max_peak);
+	run.count("wall.build_corpus_ms", (build_s * 1000.0) as u64);
+	run.count("wall.explore_ms", (explore_s * 1000.0) as u64);
+	run.eval_bulk(agg.evals, agg.sigs.iter().cloned());
+	let mut sampled = 0;
+	for (dec, class) in [
+		(D_UBLOCK, Class::Honest),
+		(D_MERKLE, Class::Field),
+		(D_TX, Class::Trunc),
+		(D_SEG_KERN, Class::Tag),
+		(D_CODEC, Class::Splice),
+		(D_BITMAPSEG, Class::Random),
+	] {
+		if let Some(g) = space.groups.iter().find(|g| g.dec as usize == dec && g.class == class) {
+			let id = g.start + g.count / 2;
+			let c = make_case(&corpus, &space, run.seed, id);
+			let mut v = case_json(&c);
+			if let Some(h) = v.get("hex").and_then(|x| x.as_str()).map(|s| s[..s.len().min(160)].to_string()) {
+				v["hex"] = json!(h);
+			}
+			run.sample(v);
+			sampled += 1;
+		}
+	}
+	let _ = sampled;
+
+	if run.replay.is_none() {
+		let cnt = |k: &str| *agg.counts.get(k).unwrap_or(&0);
+		let scale = stride;
+		run.require("alloc monitor installed in workers", agg.alloc_monitor_ok as u64, 1);
+		run.require(
+			"cases explored (permille of the case space)",
+			if explored_all { 1000 } else { agg.cases * stride * 1000 / space.total.max(1) },
+			if stride == 1 { 1000 } else { 900 },
+		);
+		let min_cases = (run.tier.pick(300, 1500) / scale).max(3);
+		for d in 0..NDEC {
+			let n = cnt(&format!("cases.dec.{}", DECODERS[d]));
+			run.require(&format!("cases for decoder {}", DECODERS[d]), n, min_cases);
+			run.require(&format!("Ok outcomes for decoder {}", DECODERS[d]), cnt(&format!("dec.{}.ok", DECODERS[d])), 1);
+			run.require(
+				&format!("Err outcomes for decoder {}", DECODERS[d]),
+				cnt(&format!("dec.{}.err", DECODERS[d])),
+				1,
+			);
+		}
+		for c in CLASS_NAMES.iter() {
+			run.require(&format!("cases of class {}", c), cnt(&format!("cases.class.{}", c)), (50 / scale).max(1));
+		}
+		run.require("socket (Codec::read) cases", cnt("cases.socket"), (2000 / scale).max(5));
+		run.require("honest seeds decoded", cnt("honest.ok"), (100 / scale).max(2));
+		if cnt("honest.unexpected_err") > 0 {
+			run.inconclusive("some honest seeds expected to decode did not (see notes): seed generator out of sync with the tree");
+		}
+		if stride == 1 {
+			run.require("honest segments validated (Segment::validate ok)", cnt("post.Segment::validate.ok"), 10);
+			run.require("honest segments validated (Segment::validate_with ok)", cnt("post.Segment::validate_with.ok"), 10);
+			run.require("segments rejected by validate", cnt("post.Segment::validate.err"), 100);
+			run.require("validate_read accepted", cnt("post.Transaction::validate_read.ok"), 10);
+			run.require("Block::validate_read rejected", cnt("post.Block::validate_read.err"), 10);
+			run.require("honest inputs tripping the allocation oracle (must be 0)", (cnt("honest.alloc_oracle_trips") == 0) as u64, 1);
+			run.require("bitmap segments converted", cnt("post.BitmapSegment::into_segment.ok"), 10);
+		}
+	}
+	drop(sc);
+	run.finish();
+}
+
+fn tail(s: &str) -> String {
+	let t: Vec<&str> = s.lines().rev().take(6).collect();
+	t.into_iter().rev().collect::<Vec<_>>().join(" | ")
+}
+
+/// Replay helper: interpret the exit of a single-case worker.
+fn classify_single(
+	corpus: &Corpus,
+	space: &Space,
+	seed: u64,
+	id: u64,
+	code: Option<i32>,
+	sig: Option<i32>,
+	err: &str,
+	agg: &mut Agg,
+	hangs: &mut Vec<u64>,
+	aborts: &mut Vec<(u64, String)>,
+) {
+	if code == Some(0) {
+		return;
+	}
+	let c = make_case(corpus, space, seed, id);
+	if code == Some(EXIT_ALLOC_OVER_CAP) {
+		let (key, size) = parse_marker(err, "ALLOC-OVER-CAP").unwrap_or((0, 0));
+		let stage = if key & 255 < 16 { "decode" } else { "post" };
+		let sigs = format!("event=over-alloc;decoder={};stage={}", sig_dec(c.dec), stage);
+		let mut v = case_json(&c);
+		v["stage"] = json!(stage);
+		v["event"] = json!("over-alloc");
+		v["msg"] = json!(format!("single allocation request of {} bytes (> hard cap)", size));
+		agg.add_finding(&sigs, &v, 1);
+	} else if code == Some(EXIT_HANG) {
+		hangs.push(id);
+	} else if sig.is_some() {
+		aborts.push((id, format!("signal {:?}", sig)));
+	} else {
+		agg.notes.push(format!("replay of case {}: worker exit {:?}: {}", id, code, tail(err)));
+	}
+}
+
+fn main() {
+	let args: Vec<String> = std::env::args().collect();
+	if args.iter().any(|a| a == "--worker") {
+		worker_main(&args);
+	} else {
+		parent_main();
 	}
 }
